@@ -73,7 +73,7 @@ Proof.
   change (k_fetch_n (defuse e)) with (k_fetch_n e).
   change (crashes_now (defuse e)) with (crashes_now e).
   destruct (t_pc (c_pool c t)) eqn:Hpc.
-  5: { (* one call of the wrapped next() *)
+  6: { (* one call of the wrapped next() *)
     destruct (crashes_now e (c_sh c)); [reflexivity|].
     assert (Hs : src_next (defuse e) (c_sh c) = src_next e (c_sh c)).
     { unfold src_next. cbn [defuse e_gap e_len].
